@@ -30,6 +30,10 @@ def look(neg, kid):
     return {"op": "look", "neg": neg, "kid": kid}
 
 
+def GG_ref(t):
+    return {"op": "ref", "t": t}
+
+
 A, B, L = lit("a"), lit("b"), lit("(")
 # templates: R is the capture of the referenced production / union; each entry (name, builder, reference is leftmost?)
 TEMPLATES = [
@@ -71,6 +75,9 @@ TEMPLATES = [
     ("after-nonempty-opt-captures", lambda R: seq(grp("nonempty", grp("once", seq(grp("opt", cap("C", "string", A)), grp("opt", cap("D", "string", B))))), R)),
     ("after-nonempty-captured-star", lambda R: seq(grp("nonempty", grp("once", cap("C", "strings", grp("once", grp("star", A))))), R, B)),
     ("after-nonempty-alt-capture", lambda R: seq(grp("nonempty", grp("once", alt(A, cap("C", "string", grp("opt", B))))), R)),
+    # an explicit reference to the end-of-input token matches (and yields a value) without consuming anything
+    ("after-eof-ref", lambda R: alt(seq(GG_ref("EOF"), R), A)),
+    ("after-nonempty-eof-ref", lambda R: alt(seq(grp("nonempty", grp("once", GG_ref("EOF"))), R), A)),
     ("terminal", None),
 ]
 
